@@ -60,6 +60,13 @@ WindowInv ==
             /\ (Gt(T, TwoTau) => ~IsOpTime(p, k, Sub(T, TwoTau)))
             /\ (k > 0 => Leq(Earliest(p, k-1), T))
 
+\* negative controls (cfg/ProfileMath_neg_*.cfg): deliberately wrong claims that TLC must refute, so that the
+\* oracle is known to discriminate: an instant 2 us late is still "the k-th instant"; a count two larger is admissible
+NegLateAccepted ==
+    \A c \in Counts(p) : \A k \in 0..(c-1) :
+        LET T == Earliest(p, k) IN Leq(Add(T, TwoTau), p.dur) => IsOpTime(p, k, Add(T, TwoTau))
+NegCountPlusTwo == \A c \in Counts(p) : c + 2 <= MaxC => CountOK(p, c + 2)
+
 \* golden points computed by hand (line 0 -> 4 rps over 2 s: k = t^2)
 Golden ==
     LET q == [kind |-> "line", from_m |-> 0, to_m |-> 4000, step |-> 0, times |-> 0, dur |-> Ms(2000)]
